@@ -341,3 +341,129 @@ void hor_check(unsigned unique_mask)
 			}
 	}
 }
+
+/* ---------------------------------------------------------------- RCU list */
+#define LMAXN 64
+#define LMAXT 256
+struct lrec { int known; long rank; uint64_t add_inv, add_ret, rem_inv, rem_ret; };
+struct ltrav { uint64_t inv, ret; int n; int order[LMAXN + 2]; uint64_t seen; };
+static struct lrec lr[LMAXN];
+static struct ltrav lt[LMAXT];
+static int nlt;
+static long lmin_rank, lmax_rank = -1;
+
+static void lchk(int id)
+{
+	if (id < 0 || id >= LMAXN)
+		usim_bug("list oracle: id out of range");
+}
+
+void lor_add(int id, int at_tail, uint64_t inv)
+{
+	lchk(id);
+	lr[id].known = 1;
+	lr[id].rank = at_tail ? ++lmax_rank : --lmin_rank;
+	lr[id].add_inv = inv;
+	lr[id].add_ret = 0;
+}
+
+void lor_replace(int old_id, int new_id, uint64_t inv)
+{
+	lchk(old_id); lchk(new_id);
+	lr[new_id].known = 1;
+	lr[new_id].rank = lr[old_id].rank;
+	lr[new_id].add_inv = inv;
+	lr[new_id].add_ret = 0;
+	lr[old_id].rem_inv = inv;
+	lr[old_id].rem_ret = 0;
+}
+
+void lor_del(int id, uint64_t inv)
+{
+	lchk(id);
+	lr[id].rem_inv = inv;
+	lr[id].rem_ret = 0;
+}
+
+/* the update (including the release of the updater lock, a full barrier) has returned */
+void lor_update_done(int added_id, int removed_id)
+{
+	uint64_t now = usim_seq();
+	if (added_id >= 0)
+		lr[added_id].add_ret = now;
+	if (removed_id >= 0)
+		lr[removed_id].rem_ret = now;
+}
+
+int lor_live(void)
+{
+	int i, n = 0;
+	for (i = 0; i < LMAXN; i++)
+		n += lr[i].known && !lr[i].rem_inv;
+	return n;
+}
+
+int lor_trav_begin(void)
+{
+	if (nlt >= LMAXT)
+		usim_bug("list oracle: too many traversals");
+	memset(&lt[nlt], 0, sizeof(lt[0]));
+	lt[nlt].inv = usim_seq();
+	return nlt++;
+}
+
+void lor_trav_visit(int t, int id)
+{
+	struct ltrav *tr = &lt[t];
+	if (id < 0 || id >= LMAXN)
+		usim_fail("rculist-garbage", "traversal reached a node with a corrupted identity (%d)", id);
+	if (tr->seen & (1ULL << id))
+		usim_fail("rculist-visited-twice", "traversal visited node %d twice", id);
+	if (tr->n > LMAXN)
+		usim_fail("rculist-no-termination", "traversal visited more nodes than were ever created");
+	tr->seen |= 1ULL << id;
+	tr->order[tr->n++] = id;
+}
+
+void lor_trav_end(int t) { lt[t].ret = usim_seq(); }
+
+void lor_check(void)
+{
+	int t, i, j;
+	for (t = 0; t < nlt; t++) {
+		struct ltrav *tr = &lt[t];
+		long last_rank = 0;
+		int have_last = 0, last_id = -1;
+		for (i = 0; i < LMAXN; i++) {
+			struct lrec *n = &lr[i];
+			int vis = (tr->seen >> i) & 1;
+			if (vis && !n->known)
+				usim_fail("rculist-garbage", "traversal visited node %d which was never added", i);
+			if (!n->known)
+				continue;
+			if (vis) {
+				if (n->add_inv > tr->ret)
+					usim_fail("rculist-phantom", "traversal [#%lu-#%lu] visited node %d before it was added",
+						(unsigned long) tr->inv, (unsigned long) tr->ret, i);
+				if (n->rem_ret && n->rem_ret < tr->inv)
+					usim_fail("rculist-phantom", "traversal [#%lu-#%lu] visited node %d whose removal had completed at #%lu",
+						(unsigned long) tr->inv, (unsigned long) tr->ret, i, (unsigned long) n->rem_ret);
+			} else if (n->add_ret && n->add_ret < tr->inv && (!n->rem_inv || n->rem_inv > tr->ret)) {
+				usim_fail("rculist-missed", "traversal [#%lu-#%lu] missed node %d which was in the list for the whole traversal",
+					(unsigned long) tr->inv, (unsigned long) tr->ret, i);
+			}
+		}
+		/* list order among nodes that were in the list for the whole traversal */
+		for (j = 0; j < tr->n; j++) {
+			struct lrec *n = &lr[tr->order[j]];
+			if (!(n->add_ret && n->add_ret < tr->inv && (!n->rem_inv || n->rem_inv > tr->ret)))
+				continue;
+			if (have_last && n->rank < last_rank)
+				usim_fail("rculist-order", "traversal [#%lu-#%lu] visited node %d after node %d although it precedes it in the list",
+					(unsigned long) tr->inv, (unsigned long) tr->ret, tr->order[j], last_id);
+			last_rank = n->rank;
+			last_id = tr->order[j];
+			have_last = 1;
+		}
+	}
+}
